@@ -361,6 +361,13 @@ func (m *Model) Proto(id string) *openfgav1.AuthorizationModel {
 			for _, x := range r.Restrs {
 				refs = append(refs, x.Proto())
 			}
+			// A relation without direct assignments may come with an empty metadata entry (what the DSL transformer
+			// emits) or with none at all (models written as JSON through the API): both are valid and must behave
+			// alike, so both shapes are exercised (chosen by a fixed function of the names, not by the PRNG, so
+			// that the case streams keep their draws).
+			if len(refs) == 0 && (len(t.Name)+len(r.Name))%2 == 0 {
+				continue
+			}
 			td.Metadata.Relations[r.Name] = &openfgav1.RelationMetadata{DirectlyRelatedUserTypes: refs}
 		}
 		am.TypeDefinitions = append(am.TypeDefinitions, td)
